@@ -223,6 +223,88 @@ def make_failing_inputs(ex):
         L = open(p).read().split("\n"); open(p, "w").write("\n".join(L[:185]))
 
 
+# ---- the listed error classes crossed with the configurations that change the code path they travel (C11):
+# GroundWaterFrom soilfile (ex1, bulk) / polygonfile (rue, zuc, MUN) / gwTimeSeries (ex3); soil file txt (rue, zuc, MUN) / csv
+# (ex3, bulk); crop file csv (rue, zuc) / txt (ex3, bulk, MUN); weather layout 1 (ex3, bulk, zuc) / 2 (rue) / 0 (MUN);
+# automatic management on (ex3, rue, zuc, bulk) / off (MUN, ex1).  ex1 itself is covered by FAILING above.
+VARIANT_BASES = {
+    "ex3":  dict(valid="ex3a", soil=("csv", "075"), plot="10001", field="SOYSM1", til="07151981", pred="04011981", startyear="1981"),
+    "rue":  dict(valid="rue1", soil=("txt", "001"), plot="10001", field="L2F3R1", til="15051981", pred="04011981", startyear="1981"),
+    "zuc":  dict(valid="zuc1", soil=("txt", "001"), plot="10001", field=None, til=None, pred="04011981", startyear="1981"),
+    "bulk": dict(valid="bulk", soil=("csv", "002"), plot="10001", field="SOYSM1", til="07151981", pred="04011981", startyear="1981"),
+    "MUN":  dict(valid="mun", soil=("txt", "001"), plot="00001", field="NEU000001", til="15052010", pred="04012010", startyear="2010"),
+}
+
+
+def _tok(line, key, value):
+    if re.search(r"(^| )%s=" % key, line):
+        return re.sub(r"(^| )%s=\S*" % key, lambda m: "%s%s=%s" % (m.group(1), key, value), line)
+    return line + " %s=%s" % (key, value)
+
+
+def variant_lines():
+    """name '<class>@<project>' -> batch line (projects v*_<P> are made by make_variant_inputs)"""
+    out = {}
+    for P, b in VARIANT_BASES.items():
+        base = VALID[b["valid"]]
+        out["unknown-soil-id@" + P] = _tok(base, "soilId", "999")
+        out["unknown-plotnr@" + P] = _tok(base, "plotNr", "77777")
+        out["start-year@" + P] = _tok(base, "StartYear", b["startyear"])
+        out["fert-prediction-lat40@" + P] = _tok(_tok(base, "VirtualDateFertilizerPrediction", b["pred"]), "Latitude", "40")
+        out["texture-not-in-tables@" + P] = _tok(base, "project", "vx_" + P)
+        if b["field"]:
+            out["unknown-field-id@" + P] = _tok(base, "project", "vf_" + P)
+        if b["til"]:
+            out["tillage-before-harvest@" + P] = _tok(base, "project", "vt_" + P)
+    out["unknown-gw-id@ex3"] = _tok(VALID["ex3a"], "gwId", "zzz")
+    out["soil-without-gw-series@ex3"] = _tok(VALID["ex3a"], "soilId", "001")
+    out["weather-gap-layout2@rue"] = _tok(VALID["rue1"], "WeatherFolder", "gapcz")
+    out["texture-fractions@bulk"] = _tok(_tok(VALID["bulk"], "project", "vs_bulk"), "PTF", "1")
+    return out
+
+
+VARIANTS = variant_lines()
+
+
+def make_variant_inputs(ex):
+    for P, b in VARIANT_BASES.items():
+        kind, sid = b["soil"]
+        d = _clone(ex, P, "vx_" + P)
+        sp = os.path.join(d, "soil_vx_%s.%s" % (P, kind))
+        L = open(sp).read().split("\n")
+        if kind == "txt":
+            i = next(i for i, l in enumerate(L) if l.startswith(sid + " "))
+            L[i] = L[i][:9] + "QQ9" + L[i][12:]
+        else:
+            col = L[0].split(",").index("Texture")
+            i = next(i for i, l in enumerate(L) if l.startswith(sid + ","))
+            t = L[i].split(","); t[col] = "QQ9"; L[i] = ",".join(t)
+        open(sp, "w").write("\n".join(L))
+        if b["field"]:
+            d = _clone(ex, P, "vf_" + P)
+            pp = os.path.join(d, "poly_vf_%s.txt" % P)
+            L = open(pp).read().split("\n")
+            i = next(i for i, l in enumerate(L) if l.split()[:1] == [b["plot"]])
+            L[i] = L[i].replace(b["field"], ("NOFELD" + " " * 12)[:len(b["field"])], 1)
+            open(pp, "w").write("\n".join(L))
+        if b["til"]:
+            d = _clone(ex, P, "vt_" + P)
+            tp = os.path.join(d, "til_vt_%s.txt" % P)
+            L = open(tp).read().rstrip("\n").split("\n")
+            L = L[:2] + ["%-9s 30 1   %s" % (b["field"], b["til"])] + [l for l in L[2:] if l.split()[:1] == [b["field"]]]
+            open(tp, "w").write("\n".join(L) + "\n")
+    d = _clone(ex, "bulk", "vs_bulk")
+    sp = os.path.join(d, "soil_vs_bulk.csv")
+    L = open(sp).read().split("\n")
+    col = L[0].split(",").index("Silt")
+    i = next(i for i, l in enumerate(L) if l.startswith("002,"))
+    t = L[i].split(","); t[col] = str(int(t[col]) + 25); L[i] = ",".join(t)
+    open(sp, "w").write("\n".join(L))
+    w = os.path.join(ex, "weather", "gapcz"); os.makedirs(w, exist_ok=True)
+    lines = open(os.path.join(ex, "weather", "historical", "109_120.w6d")).read().split("\n")
+    open(os.path.join(w, "109_120.w6d"), "w").write("\n".join(l for l in lines if not l.startswith(" 198119")))
+
+
 class Exec:
     """one execution of the batch binary"""
     def __init__(self):
